@@ -899,7 +899,7 @@ pub fn judge(c: &OpCase, publics: &[Fq]) -> Judgement {
             Ok(false) => Judgement::Inadmissible,
             Err(e) => Judgement::Wrong(e),
         },
-        "vec" | "vec4" => match crate::ops_vec::check(c, publics) {
+        "vec" | "vec4" | "vec3" => match crate::ops_vec::check(c, publics) {
             Ok(true) => Judgement::Holds,
             Ok(false) => Judgement::Inadmissible,
             Err(e) => Judgement::Wrong(e),
@@ -978,7 +978,7 @@ pub fn expected_admissible(c: &OpCase) -> bool {
         "ec" => crate::ops_ecc::expected_admissible(c),
         "h" => crate::ops_hash::expected_admissible(c),
         "ng" => crate::ops_ng::expected_admissible(c),
-        "vec" | "vec4" => crate::ops_vec::expected_admissible(c),
+        "vec" | "vec4" | "vec3" => crate::ops_vec::expected_admissible(c),
         "rx" => crate::ops_parse::rx_expected_admissible(c),
         "sp" | "vh" | "vp" | "hr" | "map" => true,
         "b64" => crate::ops_parse::b64_expected_admissible(c),
@@ -1010,7 +1010,7 @@ pub fn gen_case(rng: &mut Prng, op: &str) -> OpCase {
         crate::ops_parse::b64v_gen_case(rng, op)
     } else if op.starts_with("map.") {
         crate::ops_map::gen_case(rng)
-    } else if op.starts_with("vec.") || op.starts_with("vec4.") {
+    } else if op.starts_with("vec") {
         crate::ops_vec::gen_case(rng, op)
     } else if op.starts_with("vp.") {
         crate::ops_hash::varpos::gen_case(rng)
@@ -1039,7 +1039,7 @@ pub fn gen_case(rng: &mut Prng, op: &str) -> OpCase {
 /// operation has a recorded finding on a narrow class of inputs (so that the
 /// known-findings entry names that class and nothing else of the operation).
 pub fn input_class(c: &OpCase) -> String {
-    if c.op.starts_with("vec.") || c.op.starts_with("vec4.") {
+    if c.op.starts_with("vec") {
         return crate::ops_vec::input_class(c);
     }
     if (c.op == "ec.k256.mul_by_constant" || c.op == "ec.bls.mul_by_constant") && c.bins.first().map(|s| s.as_str()) == Some("0") && c.bigp(0).bits() > 128 {
@@ -1051,7 +1051,7 @@ pub fn input_class(c: &OpCase) -> String {
 /// A qualifier derived from the public values of an accepted execution, for
 /// the same purpose as `input_class`.
 pub fn published_class(c: &OpCase, publics: &[Fq]) -> String {
-    if c.op.starts_with("vec.") || c.op.starts_with("vec4.") {
+    if c.op.starts_with("vec") {
         // nothing of a vector's cells is published: the class is read off the honest input
         return crate::ops_vec::input_class(c);
     }
